@@ -5,7 +5,10 @@ C16 - regenerated source-level facts (T-gen, `harness/c16 table regfacts`, go/as
 tree): every `eventHandlers.Insert` (registration: snapshot + insertion of the handler) and every
 `eventHandlers.Distribute` (delivery of a batch) in collection.go, static.go, join.go, mergejoin.go,
 nestedjoinmerge.go is called while the collection lock taken earlier in the same function is still
-held.  This is the atomicity hypothesis of `reg_atomic_accepted` (Registration.lean).
+held, that critical section is the only one opened on the path to the call, and the snapshot an `Insert`
+carries is read from the collection state inside that same critical section (a snapshot taken under the
+lock, `Unlock`, `Lock` again, `Insert` is the registration gap of `reg_gap_witness`).  This is the
+atomicity hypothesis of `reg_atomic_accepted` (Registration.lean).
 -/
 namespace IstioModel.C16
 open IstioModel.Generated.C16
@@ -23,7 +26,24 @@ def requiredSites : List (String × String × String) :=
     ("mergejoin.go", "mergejoin.onSubCollectionEventHandler", "Distribute") ]
 
 /-- every Insert / Distribute call found in the sources is made with the collection lock held -/
-theorem registration_under_lock : regFacts.all (fun f => f.2.2.2) = true := by decide
+theorem registration_under_lock : regFacts.all (fun f => f.2.2.2.1) = true := by decide
+
+/-- ... and that critical section is the only one the function opened on the way to the call: no
+    `Unlock` + second `Lock` between computing the events / the snapshot and handing them over -/
+theorem registration_one_critical_section : regFacts.all (fun f => f.2.2.2.2.1) = true := by decide
+
+/-- every `Insert` either carries no initial events or reads the collection state it snapshots
+    (`collectionState.outputs` / `processedState` / `vals` / `outputs`) inside the critical section of the
+    `Insert` itself and nowhere else before it -/
+theorem registration_snapshot_in_same_span :
+    regFacts.all (fun f => f.2.2.1 != "Insert" || f.2.2.2.2.2 == "nil" || f.2.2.2.2.2 == "same-span") = true := by
+  decide
+
+/-- each of the four `RegisterBatch` implementations has an `Insert` that carries such a snapshot -/
+theorem registration_snapshot_sites_present :
+    ["manyCollection.RegisterBatch", "staticList.RegisterBatch", "join.RegisterBatch", "mergejoin.RegisterBatch"].all
+      (fun m => regFacts.any (fun f => f.2.1 == m && f.2.2.1 == "Insert" && f.2.2.2.2.2 == "same-span")) = true := by
+  decide
 
 /-- all the call sites the model speaks about were found -/
 theorem registration_sites_present :
